@@ -13,3 +13,12 @@ package perunio
 //@   loop 1
 //@     modifies (*b)[*]
 //@     invariant 0 <= n && n <= len(*b)
+
+// BigInt.Decode: length byte, then exactly that many bytes; lengths above MaxBigIntLength are rejected.
+// ghost("setbyteslen") is the byte length of the last big integer built with SetBytes.
+//@ func (*BigInt).Decode
+//@   requires reader != nil
+//@   modifies b.Int, val(b.Int), ghost("setbyteslen")
+//@   ensures result == nil ==> b.Int != nil && val(b.Int) >= 0 && ghost("setbyteslen") <= MaxBigIntLength
+//@   ensures old(b.Int) != nil ==> b.Int == old(b.Int)
+//@   ensures old(b.Int) == nil && b.Int != nil ==> fresh(b.Int)
